@@ -542,6 +542,31 @@ fn keyed(n: usize, key: u64) -> Vec<u8> {
     (0..n).map(|_| { x ^= x << 13; x ^= x >> 7; x ^= x << 17; (x >> 24) as u8 }).collect()
 }
 
+/// the typed-array emission routes: the buffered builder and the streaming typed-slice writers must put the same frame
+/// on the wire for the same slice, the empty one included
+fn typed_route_failures() -> Vec<Value> {
+    let mut bad = vec![];
+    fn one<T: beve::BeveTypedSlice + Copy + std::fmt::Debug>(v: &[T], tag: &str, bad: &mut Vec<Value>) {
+        let built = Message::builder().id(9).query_str("/t").body_typed_slice(v).build();
+        let mut streamed = vec![];
+        let mut h = Header::new();
+        h.id = 9;
+        if let Err(e) = repe::write_message_typed_slice(&mut streamed, h, b"/t", v) { bad.push(json!({"class": "layout", "route": "write_message_typed_slice", "what": format!("{tag} len {}: {e}", v.len())})); return; }
+        let mut hb = built.clone();
+        hb.header.query_format = Message::from_slice(&streamed).map(|m| m.header.query_format).unwrap_or(0);
+        hb.header.body_format = Message::from_slice(&streamed).map(|m| m.header.body_format).unwrap_or(0);
+        if Message::from_slice(&streamed).map(|m| m.body != built.body).unwrap_or(true) {
+            bad.push(json!({"class": "layout", "route": "write_message_typed_slice", "what": format!("{tag} len {}: streamed body {:?} differs from the builder's {:?}", v.len(), Message::from_slice(&streamed).map(|m| m.body).ok(), built.body)}));
+        }
+    }
+    for n in 0..5usize {
+        one::<f64>(&vec![1.5; n], "f64", &mut bad);
+        one::<i32>(&vec![-3; n], "i32", &mut bad);
+        one::<u8>(&vec![200; n], "u8", &mut bad);
+    }
+    bad
+}
+
 pub fn c01(a: &Args) -> i32 {
     std::panic::set_hook(Box::new(|_| {}));
     let rt = tokio::runtime::Builder::new_current_thread().enable_all().build().unwrap();
@@ -618,6 +643,7 @@ pub fn c01(a: &Args) -> i32 {
                            "routes_differing": differing, "payload_ok": payload_ok, "parsers_differing": bad_parsers}));
     }
     trace.finish();
+    failures.extend(typed_route_failures());
     util::write_json(&a.req("out"), &json!({"tlc_vectors": nvec, "random_frames": nrand, "evaluations": evals, "routes": routes_seen, "failures": failures}));
     0
 }
